@@ -190,6 +190,35 @@ def run_rules(mir, res, cx):
                                             r2, _ = borrow_root(fn, c0.args[0])
                                             nxt = r2["l"] if r2 is not None else None
                                     l = nxt
+                        if not dep and redefined:
+                            # the candidate is built by appending to a fresh String inside the loop: `s.push_str(&i.to_string())`
+                            # with i the loop-carried counter — the value reconstruction does not see mutation through
+                            # `&mut`, so look at what is appended to the tested local
+                            from ..mir import borrow_root
+                            tested = set()
+                            for cc in calls:
+                                if (cc.rpath or "").endswith(("HashSet::<T, S, A>::contains", "HashSet::<T, S, A>::insert")) and len(cc.args) == 2:
+                                    r0, _v = borrow_root(fn, cc.args[1])
+                                    l0 = r0["l"] if r0 is not None else None
+                                    seen0 = set()
+                                    while l0 is not None and l0 not in seen0:
+                                        seen0.add(l0)
+                                        tested.add(l0)
+                                        ds0 = fn.defs(l0)
+                                        nxt0 = None
+                                        if len(ds0) == 1 and ds0[0][0] == "call":
+                                            c0 = fn.call_at(ds0[0][1])
+                                            if c0.args and c0.args[0]["k"] in ("copy", "move") and (c0.rpath or "").endswith("::deref"):
+                                                r2, _ = borrow_root(fn, c0.args[0])
+                                                nxt0 = r2["l"] if r2 is not None else None
+                                        l0 = nxt0
+                            for cc in calls:
+                                if (cc.rpath or "").endswith(("String::push_str", "String::push")) and len(cc.args) == 2 and cc.bb in body:
+                                    r1, _v = borrow_root(fn, cc.args[0])
+                                    if r1 is not None and r1["l"] in tested:
+                                        ae = ex.operand(cc.args[1])
+                                        if any(x.k in ("cycle", "phi") for x in ae.walk()) and "AddWithOverflow" in canon(ae):
+                                            dep = True
                         role = "fresh-name(contains)" if (dep and redefined) else "contains-without-progress"
                     elif change_flag_condition(ce) is not None:
                         # boolean flag returned by a local step function
